@@ -60,6 +60,7 @@ Proof.
   apply etype_eqb_eq in Et.
   assert (Hu0 : ie_unknown e = []) by (apply (oi_untyped _ _ Hown e); [apply in_mid; auto|exact Et]).
   destruct (check_deps _ _ _ _ _ _ _ H Et He) as (_ & _ & Cu & Ct).
+  pose proof (check_cases _ _ _ _ _ _ _ H Et He) as HC. cbv zeta in HC.
   set (ivs := cs_ivs st) in *. set (ivs' := cs_ivs st') in *.
   assert (Hlen : length ivs' = length ivs) by apply Hev.
   assert (Hdeps : incl (ie_deps e') (deps1 ivs e)).
@@ -79,7 +80,7 @@ Proof.
     destruct He as (I1 & _). rewrite Forall_forall in I1. specialize (I1 i Hi).
     destruct (ivs_ok_geti _ _ _ Hok I1) as (_ & K & _). rewrite K in Hc.
     rewrite (cls_inj s ivs u i Hok Hu I1 Hc). apply Hm. exact Hki. }
-  destruct (check_cases _ _ _ _ _ _ _ H Et He) as [(A1 & A2 & A3 & A4)|[(p & A)|(inits & A)]]; fold ivs in *; fold ivs' in *.
+  destruct HC as [(A1 & A2 & A3 & A4)|[(p & A)|(inits & A)]].
   - (* nothing typed *)
     exists rv, T. assert (Hm : forall q, is_known ivs q = true -> is_known ivs' q = true).
     { intros q Hq. apply known_type in Hq. apply known_type. destruct A4 as (_ & A4). destruct (A4 q) as (_ & [K|[(K1 & K2)|K]]); rewrite K || rewrite K2; try assumption; discriminate. }
@@ -156,4 +157,353 @@ Proof.
       assert (x <> e') by (intros ->; destruct Nx as (_ & K); contradiction).
       assert (x' <> e') by (intros ->; destruct Dx' as (_ & K & _); contradiction).
       apply (Tr x x' d p0 u); try assumption; apply in_mid; tauto.
+Qed.
+
+Lemma sweep_topo : forall s nla es pre st st' es' b,
+  sweep s nla st es = (st', es', b) -> own_inv (cs_ivs st) (pre ++ es) -> ivs_ok s (cs_ivs st) ->
+  (exists rv T, topo_inv s (cs_ivs st) (pre ++ es) rv T) ->
+  exists rv' T', topo_inv s (cs_ivs st') (pre ++ es') rv' T'.
+Proof.
+  intros s nla es. induction es as [|e r IH]; intros pre st st' es' b H Hown Hok Hti; cbn in H.
+  - inversion H; subst. exact Hti.
+  - destruct (check s nla st e) as [[st1 e1] b1] eqn:Hc.
+    destruct (sweep s nla st1 r) as [[st2 r1] b2] eqn:Hs.
+    inversion H; subst. clear H. destruct Hti as (rv & T & Hti).
+    pose proof (check_own _ _ _ _ _ _ _ pre r Hc Hown) as H1.
+    pose proof (check_topo _ _ _ _ _ _ _ pre r rv T Hc Hown Hok Hti) as T1.
+    assert (He : eq_inv (cs_ivs st) e).
+    { pose proof (oi_bounds _ _ Hown) as HB. rewrite Forall_forall in HB. apply HB. apply in_mid. auto. }
+    destruct (check_inv _ _ _ _ _ _ _ Hc He) as (Hev & _).
+    pose proof (evolves_ivs_ok _ _ _ Hok Hev) as Hok1.
+    change (pre ++ e1 :: r) with (pre ++ [e1] ++ r) in H1, T1. rewrite app_assoc in H1, T1.
+    pose proof (IH _ _ _ _ _ Hs H1 Hok1 T1) as H2. rewrite <- app_assoc in H2. exact H2.
+Qed.
+
+Lemma loop_topo : forall s fuel loopn nla st es st' es',
+  loop s fuel loopn nla st es = Some (st', es') ->
+  Forall (fun v => iv_external v = false) (cs_ivs st) -> own_inv (cs_ivs st) es -> ivs_ok s (cs_ivs st) ->
+  (exists rv T, topo_inv s (cs_ivs st) es rv T) ->
+  exists rv' T', topo_inv s (cs_ivs st') es' rv' T'.
+Proof.
+  intros s fuel. induction fuel as [|f IH]; intros loopn nla st es st' es' H Hne Hown Hok Hti; [discriminate|].
+  cbn [loop] in H. destruct (sweep s nla st es) as [[st1 es1] rel] eqn:Hs.
+  pose proof (sweep_own _ _ _ [] _ _ _ _ Hs Hown) as H1. cbn [app] in H1.
+  pose proof (sweep_topo _ _ _ [] _ _ _ _ Hs Hown Hok Hti) as T1. cbn [app] in T1.
+  destruct (sweep_inv _ _ _ _ _ _ _ Hs (oi_bounds _ _ Hown)) as (Hev & _).
+  pose proof (noext_evolves _ _ _ Hev Hne) as Hne1.
+  pose proof (evolves_ivs_ok _ _ _ Hok Hev) as Hok1.
+  destruct rel; [eapply IH; eassumption|].
+  destruct ((loopn =? 1) || (loopn =? 3)); [eapply IH; eassumption|].
+  assert (Hmark : map (fun v => if iv_external v && vtype_eqb (iv_type v) VUnknown then set_type v VInitialised else v) (cs_ivs st1) = cs_ivs st1).
+  { clear - Hne1. induction (cs_ivs st1) as [|v r IHr]; cbn; [reflexivity|]. inversion Hne1; subst.
+    rewrite H1. cbn. rewrite IHr by assumption. reflexivity. }
+  destruct (loopn =? 2).
+  - rewrite Hmark in H. destruct (existsb iv_external (cs_ivs st1)).
+    + eapply IH; [exact H| | | |]; cbn [cs_ivs]; assumption.
+    + inversion H; subst. cbn [cs_ivs]. exact T1.
+  - inversion H; subst. exact T1.
+Qed.
+
+Lemma ranked_same2 : forall s ivs ivs2 es es2 rv,
+  evolves s ivs ivs2 -> (forall e2, In e2 es2 -> exists e, In e es /\ same2 e e2) ->
+  ranked s ivs es rv -> ranked s ivs2 es2 rv.
+Proof.
+  intros s ivs ivs2 es es2 rv Hev Hpull Hr x x' d p u Hx Hx' Nx Dx' Hp Hu Hd Hc Hne.
+  destruct (Hpull x Hx) as (y & Hy & (S1 & S2 & S3 & S4 & S5) & S6 & S7).
+  destruct (Hpull x' Hx') as (y' & Hy' & (R1 & R2 & R3 & R4 & R5) & R6 & R7).
+  rewrite (cls_stable _ _ _ u Hev) in Hc.
+  apply (Hr y y' d p u); try assumption.
+  - destruct Nx as (N1 & N2). split; tauto.
+  - destruct Dx' as (N1 & N2 & N3). repeat split; tauto.
+  - rewrite <- S3. exact Hp.
+  - rewrite <- R3. exact Hu.
+  - rewrite <- S2. exact Hd.
+Qed.
+
+(* ------------------------------------------------------------------ a ranking empties the peeling *)
+
+Lemma filter_length_le' : forall {A} (f : A -> bool) l, length (filter f l) <= length l.
+Proof. intros A f l. induction l as [|x r IH]; cbn; [lia|]. destruct (f x); cbn; lia. Qed.
+
+Lemma filter_length_lt' : forall {A} (f : A -> bool) l x, In x l -> f x = false -> length (filter f l) < length l.
+Proof.
+  intros A f l x. induction l as [|y r IH]; intros Hin Hf; [destruct Hin|]. cbn.
+  destruct Hin as [->|Hin].
+  - rewrite Hf. pose proof (filter_length_le' f r). lia.
+  - specialize (IH Hin Hf). destruct (f y); cbn; lia.
+Qed.
+
+Lemma min_elem : forall {A} (m : A -> nat) l, l <> [] -> exists e, In e l /\ forall e', In e' l -> m e <= m e'.
+Proof.
+  intros A m l. induction l as [|x r IH]; intro Hne; [contradiction|].
+  destruct r as [|y r'].
+  - exists x. split; [left; reflexivity|]. intros e' [<-|[]]. lia.
+  - destruct IH as (e & He & Hmin); [discriminate|].
+    destruct (Nat.le_gt_cases (m x) (m e)) as [Hle|Hgt].
+    + exists x. split; [left; reflexivity|]. intros e' [<-|He']; [lia|]. specialize (Hmin e' He'). lia.
+    + exists e. split; [right; exact He|]. intros e' [<-|He']; [lia|]. apply Hmin. exact He'.
+Qed.
+
+Lemma peel_ranked : forall wn r (rk : nat -> nat) nodes,
+  (forall e p, In e nodes -> In p (order_edges wn r e) -> In p (map ae_pos nodes) -> rk p < rk (ae_pos e)) ->
+  forall fuel rem, incl rem nodes -> length rem <= fuel -> peel (S fuel) wn r rem = [].
+Proof.
+  intros wn r rk nodes Hrk. induction fuel as [|f IH]; intros rem Hin Hlen.
+  - destruct rem; [reflexivity|cbn in Hlen; lia].
+  - destruct rem as [|a rem']; [reflexivity|].
+    set (rem := a :: rem') in *. cbn [peel].
+    set (next := filter (fun e => existsb (fun p => mem_nat p (map ae_pos rem)) (order_edges wn r e)) rem).
+    destruct (min_elem (fun e => rk (ae_pos e)) rem) as (e & He & Hmin); [discriminate|].
+    assert (Hfe : existsb (fun p => mem_nat p (map ae_pos rem)) (order_edges wn r e) = false).
+    { destruct (existsb _ (order_edges wn r e)) eqn:E; [|reflexivity]. exfalso.
+      apply existsb_exists in E. destruct E as (p & Hp & Hm). apply mem_nat_In in Hm.
+      apply in_map_iff in Hm. destruct Hm as (e' & <- & He').
+      assert (K : rk (ae_pos e') < rk (ae_pos e)).
+      { apply Hrk; [apply Hin; exact He|exact Hp|apply in_map; apply Hin; exact He']. }
+      specialize (Hmin e' He'). cbv beta in Hmin. lia. }
+    pose proof (filter_length_lt' (fun e => existsb (fun p => mem_nat p (map ae_pos rem)) (order_edges wn r e)) rem e He Hfe) as Hlt. fold next in Hlt.
+    destruct (Nat.eqb_spec (length next) (length rem)) as [E|_]; [lia|].
+    apply IH.
+    + intros x Hx. apply Hin. unfold next in Hx. apply filter_In in Hx. apply Hx.
+    + lia.
+Qed.
+
+(* ------------------------------------------------------------------ the packaging *)
+
+Lemma package_topo : forall s ty voi ivs es rv,
+  eqs_fin ivs es -> single es -> Forall (fun v => iv_external v = false) ivs -> ivs_ok s ivs -> dependency_fix = true ->
+  Forall (dep_ok s ivs) es -> ranked s ivs es rv ->
+  wf_topological false (package s ty voi ivs es) = true.
+Proof.
+  intros s ty voi ivs es rv Hfe Hsingle Hne Hok Hfx Hdep Hrank.
+  assert (Fe : forall c, In c (map core es) -> fst c <> EUnknown /\ snd c <> [] /\
+                 forall p, In p (snd c) -> p < length ivs /\ computed_type (iv_type (geti ivs p)) = true).
+  { intros c Hc. apply in_map_iff in Hc. destruct Hc as (e & <- & He). exact (Hfe e He). }
+  unfold package.
+  set (consts := filter (fun p => vtype_eqb (iv_type (geti ivs p)) VConstant) (seq 0 (length ivs))).
+  set (dum := map (new_var_eq ivs) consts).
+  set (es3 := es ++ dum).
+  set (avs := make_avars es3 ivs 0 0 0).
+  set (F := make_aeq s ivs es3 avs).
+  set (aeqs := filter_map F (seq 0 (length es3))).
+  set (pop := map ae_pos aeqs).
+  set (r := mkResult ty [] voi _ _ _ _).
+  assert (Hreqs : r_eqs r = map (clean_deps pop) aeqs) by reflexivity.
+  assert (Hat : forall q, q < length ivs -> forall t, atype_of (geti ivs q) = Some t -> t <> AExternal /\
+            exists a, lookup_avar avs q = Some a /\ av_type a = t /\ av_var a = iv_var (geti ivs q) /\ av_eqs a = eqs_of es3 q).
+  { intros q Hq t Ht. split.
+    - unfold atype_of in Ht. rewrite (noext_geti _ q Hne) in Ht. destruct (iv_type (geti ivs q)); inversion Ht; discriminate.
+    - destruct (make_avars_lookup es3 ivs 0 0 0 q t) as (a & A1 & _ & A3 & A4 & A5); [lia|lia|rewrite Nat.sub_0_r; exact Ht|].
+      rewrite Nat.sub_0_r in A4. exists a. auto. }
+  assert (Hcomp : forall q, q < length ivs -> computed_type (iv_type (geti ivs q)) = true -> exists t, atype_of (geti ivs q) = Some t).
+  { intros q Hq Hc. unfold atype_of. rewrite (noext_geti _ q Hne). destruct (iv_type (geti ivs q)); cbn in Hc; try discriminate; eauto. }
+  assert (Havs : forall q a, In (q, a) avs -> q < length ivs /\ av_var a = iv_var (geti ivs q) /\ av_eqs a = eqs_of es3 q).
+  { intros q a Hin. destruct (make_avars_In _ _ _ _ _ _ _ Hin) as (_ & Hq & _ & Hv & He). rewrite Nat.sub_0_r in Hv. cbn in Hq. auto. }
+  assert (HF : forall j y, j < length es3 -> F j = Some y -> j < length es /\ ae_pos y = j /\
+            ae_type y = qtype_of (ie_type (gete es j)) /\
+            ae_deps y = dep_fold (dep_lookup dependency_fix s ivs avs) (ie_deps (gete es j)) []).
+  { intros j y Hj3 Hy. destruct (Nat.lt_ge_cases j (length es)) as [Hj|Hj].
+    - assert (Hg : gete es3 j = gete es j) by (unfold gete, es3; apply app_nth1; exact Hj).
+      assert (Hin : In (core (gete es j)) (map core es)) by (apply in_map; apply nth_In; exact Hj).
+      destruct (Fe _ Hin) as (E1 & E2 & E3). cbn [core fst snd] in E1, E2, E3.
+      destruct (ie_unknown (gete es j)) as [|p rest] eqn:Eu; [contradiction|].
+      destruct (E3 p (or_introl eq_refl)) as (P1 & P2). destruct (Hcomp p P1 P2) as (t & Ht).
+      destruct (Hat p P1 t Ht) as (Hx & a0 & L0 & T0 & _).
+      destruct (make_aeq_typed2 s ivs es3 avs j p a0 rest) as (x & X1 & X2 & X3 & X4 & X5); try (rewrite Hg; assumption); try assumption.
+      { rewrite T0. exact Hx. }
+      destruct (make_aeq_typed s ivs es3 avs j p a0 rest) as (x' & X1' & _ & _ & _ & X5'); try (rewrite Hg; assumption); try assumption.
+      { rewrite T0. exact Hx. }
+      rewrite X1 in X1'. inversion X1'; subst x'.
+      unfold F in Hy. rewrite X1 in Hy. inversion Hy; subst y. rewrite Hg in *. auto.
+    - exfalso.
+      unfold es3 in Hj3. rewrite app_length in Hj3.
+      assert (Hg : gete es3 j = nth (j - length es) dum dieq) by (unfold gete, es3; apply app_nth2; lia).
+      assert (Hin : In (nth (j - length es) dum dieq) dum) by (apply nth_In; lia).
+      unfold dum in Hin. apply in_map_iff in Hin. destruct Hin as (c & Hc1 & Hc2).
+      unfold consts in Hc2. apply filter_In in Hc2. destruct Hc2 as (Hc2 & Hc3). apply in_seq in Hc2. apply vtype_eqb_eq in Hc3.
+      assert (Ht : atype_of (geti ivs c) = Some AConstant) by (unfold atype_of; rewrite (noext_geti _ c Hne), Hc3; reflexivity).
+      destruct (Hat c (proj2 Hc2) _ Ht) as (_ & a0 & L0 & T0 & _).
+      assert (Hg' : gete es3 j = new_var_eq ivs c) by (rewrite Hg; unfold dum; symmetry; exact Hc1).
+      unfold F in Hy. rewrite (make_aeq_dummy s ivs es3 avs j c a0) in Hy; [discriminate|rewrite Hg'; reflexivity|rewrite Hg'; reflexivity|exact L0|rewrite T0; discriminate]. }
+  assert (Haeqs : forall y, In y aeqs -> exists j, j < length es3 /\ F j = Some y).
+  { intros y Hy. unfold aeqs in Hy.
+    assert (G : forall l, In y (filter_map F l) -> exists j, In j l /\ F j = Some y).
+    { induction l as [|j l IH]; intro K; [destruct K|]. cbn [filter_map] in K.
+      destruct (F j) as [y'|] eqn:Fj; [destruct K as [<-|K]; [exists j; split; [left; reflexivity|exact Fj]|]|];
+        destruct (IH K) as (j' & J1 & J2); exists j'; split; [right; exact J1|exact J2|right; exact J1|exact J2]. }
+    destruct (G _ Hy) as (j & J1 & J2). apply in_seq in J1. exists j. split; [lia|exact J2]. }
+  assert (Hlook : forall d p, p < length ivs -> iv_cls (geti ivs p) = cls_of s d -> dep_lookup dependency_fix s ivs avs d = lookup_avar avs p).
+  { intros d p Hp Hc. unfold dep_lookup. rewrite Hfx. f_equal.
+    destruct (ivar_of_spec s ivs d Hok) as (I1 & I2).
+    { rewrite <- Hc. apply in_map. apply geti_In. exact Hp. }
+    eapply cls_inj; [exact Hok|exact I1|exact Hp|congruence]. }
+  (* every equation of the result comes from a typed internal equation *)
+  assert (Hres : forall x, In x (r_eqs r) -> exists j, j < length es /\ ae_pos x = j /\ ae_type x = qtype_of (ie_type (gete es j)) /\
+            incl (ae_deps x) (dep_fold (dep_lookup dependency_fix s ivs avs) (ie_deps (gete es j)) [])).
+  { intros x Hx. rewrite Hreqs in Hx. apply in_map_iff in Hx. destruct Hx as (y & <- & Hy).
+    destruct (Haeqs y Hy) as (j & Hj3 & Fj). destruct (HF j y Hj3 Fj) as (Hj & Y1 & Y2 & Y3).
+    exists j. split; [exact Hj|]. split; [exact Y1|]. split; [exact Y2|]. cbn [clean_deps ae_deps]. rewrite <- Y3.
+    intros z Hz. apply filter_In in Hz. apply Hz. }
+  unfold wf_topological. cbn [orb negb].
+  set (nodes := filter (fun e => negb (q_nla e)) (r_eqs r)).
+  rewrite (peel_ranked false r (fun j => rv (hd 0 (ie_unknown (gete es j)))) nodes); [reflexivity| |apply incl_refl|apply le_n].
+  intros x p' Hx Hp' _. unfold nodes in Hx. apply filter_In in Hx. destruct Hx as (Hx & Hxn).
+  destruct (Hres x Hx) as (j & Hj & X1 & X2 & X3). rewrite X1.
+  set (e := gete es j) in *. assert (Hein : In e es) by (apply nth_In; exact Hj).
+  assert (Hcin : In (core e) (map core es)) by (apply in_map; exact Hein).
+  destruct (Fe _ Hcin) as (E1 & E2 & E3). cbn [core fst snd] in E1, E2, E3.
+  assert (Nx : node e).
+  { split; [exact E1|]. intro K. unfold q_nla in Hxn. rewrite X2, K in Hxn. discriminate. }
+  destruct (ie_unknown e) as [|p rest] eqn:Eu; [contradiction|].
+  assert (Hp1 : ie_unknown e = [p]) by (apply (Hsingle e p Hein (proj1 Nx) (proj2 Nx)); rewrite Eu; left; reflexivity).
+  (* the edge *)
+  unfold order_edges in Hp'. apply filter_In in Hp'. destruct Hp' as (Hp'd & Hp'f).
+  destruct (find_aeq r p') as [x'|] eqn:Ef; [|discriminate].
+  unfold find_aeq in Ef. apply find_some in Ef. destruct Ef as (Hx' & Epos). apply Nat.eqb_eq in Epos.
+  destruct (Hres x' Hx') as (j' & Hj' & X1' & X2' & _). rewrite Epos in X1'. subst j'.
+  set (e' := gete es p') in *. assert (He'in : In e' es) by (apply nth_In; exact Hj').
+  assert (Hc'in : In (core e') (map core es)) by (apply in_map; exact He'in).
+  destruct (Fe _ Hc'in) as (E1' & _ & _). cbn [core fst] in E1'.
+  assert (Dx' : direct e').
+  { cbn [orb] in Hp'f. apply andb_true_iff in Hp'f. destruct Hp'f as (Q1 & Q2). unfold q_ode, q_nla in Q1, Q2. rewrite X2' in Q1, Q2.
+    split; [exact E1'|]. split; intro K; rewrite K in *; discriminate. }
+  apply X3 in Hp'd. destruct (dep_fold_spec (dep_lookup dependency_fix s ivs avs) (ie_deps e) []) as (Gin & _).
+  apply Gin in Hp'd. destruct Hp'd as [[]|(d & a' & Hd & Hl & Hja)].
+  rewrite Forall_forall in Hdep. destruct (Hdep e Hein) as (id & c & q & _ & _ & _ & DS).
+  destruct (DS d Hd) as (_ & S2 & (u & U1 & U2)).
+  rewrite (Hlook d u U1 U2) in Hl. apply lookup_avar_In in Hl. destruct (Havs _ _ Hl) as (_ & _ & Q3).
+  rewrite Q3 in Hja. unfold eqs_of in Hja. apply filter_In in Hja. destruct Hja as (_ & Hmem). apply mem_nat_In in Hmem.
+  assert (Hg' : gete es3 p' = e') by (unfold gete, es3, e'; apply app_nth1; exact Hj').
+  rewrite Hg' in Hmem.
+  assert (Hu1 : ie_unknown e' = [u]).
+  { destruct Dx' as (D1 & D2 & _). apply (Hsingle e' u He'in D1 D2 Hmem). }
+  rewrite Hu1. cbn [hd].
+  apply (Hrank e e' d p u); try assumption.
+  - rewrite Eu. left. reflexivity.
+  - intros ->. apply (S2 p); [rewrite Eu; left; reflexivity|]. symmetry. exact U2.
+Qed.
+
+(* ------------------------------------------------------------------ the theorem *)
+
+Lemma finish_topo : forall s voi ivs es vidx rv,
+  own_inv ivs es -> Forall (fun v => iv_external v = false) ivs -> ivs_ok s ivs ->
+  dependency_fix = true ->
+  (forall ivs2, evolves s ivs ivs2 -> forall e1 e2, In e1 es -> same_dep e1 e2 -> ie_type e2 <> EUnknown -> dep_ok s ivs2 e2) ->
+  ranked s ivs es rv ->
+  valid_type (r_type (finish s voi ivs es vidx)) = true ->
+  wf_topological false (finish s voi ivs es vidx) = true.
+Proof.
+  intros s voi ivs es vidx rv Hown Hne Hok Hfx Hdep Hrank Hvalid. unfold finish in *.
+  destruct (validate_vars ivs vidx) as [[ivs1 vidx1] iss1] eqn:Ev.
+  destruct iss1 as [|i1 ir1].
+  2:{ cbn in Hvalid. destruct (existsb _ ivs1); [destruct (existsb _ ivs1)|]; discriminate. }
+  destruct (fold_left requalify_step (nla_group ivs1 es) (ivs1, [], [], [])) as [[[ivs2 es2] ov] iss2] eqn:Er.
+  destruct iss2 as [|i2 ir2]; [|discriminate].
+  destruct (finish_weak s _ _ _ _ _ _ _ _ Hown Hne Ev Er) as (Hev2 & Hne2 & Hpull & Hfe & Hsingle).
+  pose proof (evolves_ivs_ok _ _ _ Hok Hev2) as Hok2.
+  assert (Hdep2 : Forall (dep_ok s ivs2) es2).
+  { rewrite Forall_forall. intros e2 He2. destruct (Hpull e2 He2) as (e1 & He1 & (S1 & _)).
+    apply (Hdep ivs2 Hev2 e1 e2 He1 S1). apply (Hfe e2 He2). }
+  pose proof (ranked_same2 s ivs ivs2 es es2 rv Hev2 Hpull Hrank) as Hrank2.
+  destruct (model_type voi ivs2 es2); try discriminate; apply (package_topo s _ voi ivs2 es2 rv); assumption.
+Qed.
+
+(** Result-level W5: in every valid result the equations that are solved directly (every equation that is not part of
+    an NLA system) can be ordered so that each one comes after the direct, non-ODE equations it depends on: the
+    order in which check() typed the variables they compute is such an order.  Dependencies on states (equations of
+    type ODE) are no constraint - they may be cyclic, x' = y, y' = x - and neither are dependencies on variables
+    computed by NLA systems (clause 51, which does fail on the library, is not claimed).
+    [dependency_fix = true]: that an equation does not depend on the variable it computes itself (a cycle of length
+    one) is established through the repaired bookkeeping, which compares equivalence classes (AnalysisDepProofs);
+    with the comparison of variable pointers (C05-dependency-lost-on-retarget) it is not established. *)
+Theorem result_wf_topological : forall s r,
+  analyse s = Done r -> valid_type (r_type r) = true -> dependency_fix = true -> unique_ids s ->
+  wf_topological false r = true.
+Proof.
+  intros s r H Hvalid Hfx Huniq. unfold analyse, analyse_ext in H.
+  destruct (negb (resolvable s)); [discriminate|].
+  destruct (build s) as [[ivs0 es0]|] eqn:Eb; [|discriminate].
+  destruct (check_inits s ivs0 0 s); [|inversion H; subst; discriminate].
+  cbn [fold_left] in H.
+  destruct (vs_issues (analyse_asts s ivs0 es0)) eqn:Ei; [|inversion H; subst; discriminate].
+  destruct (loop s (loop_fuel es0) 1 false (mkCs (vs_ivs (analyse_asts s ivs0 es0)) 0 0) es0) as [[st es1]|] eqn:El; [|discriminate].
+  inversion H; subst r. clear H.
+  destruct (own_inv_initial _ _ _ Eb) as (H0 & Hlen).
+  destruct (build_spec _ _ _ Eb) as (B1 & B2 & B3). pose proof (build_fresh _ _ _ Eb) as B4.
+  pose proof (build_built _ _ _ Eb) as Hbuilt.
+  destruct (analyse_asts_inv s ivs0 es0 B1 B3 B4 B2 Ei) as ((Hok & _ & _ & _ & Hne) & _).
+  assert (HA : Forall asts_iv ivs0).
+  { eapply Forall_impl; [|exact B4]. intros v ([T|T] & _ & I); split; try exact I; rewrite T; reflexivity. }
+  assert (Hpos : forall e d, In e es0 -> In d (ie_diffs e) -> ivar_of s ivs0 (snd d) < length ivs0).
+  { intros e d He Hd. rewrite Forall_forall in B2. destruct (B2 e He) as (D & _). rewrite Forall_forall in D.
+    destruct (D d Hd) as (_ & R). apply ivar_of_spec; [exact B1|]. apply B3; [exact R|]. apply in_range_comp in R. apply R. }
+  destruct (analyse_asts_types s ivs0 es0 HA Hpos) as (T1 & T2 & _).
+  set (ivs := vs_ivs (analyse_asts s ivs0 es0)) in *.
+  assert (Htypes : forall q, asts_type (iv_type (geti ivs q)) = true).
+  { intro q. apply (Forall_geti (fun v => asts_type (iv_type v) = true)); [|reflexivity].
+    eapply Forall_impl; [|exact T1]. intros v (A & _). exact A. }
+  assert (Hn0 : nonempty_inv ivs es0).
+  { intros p _ K. specialize (Htypes p). rewrite K in Htypes. discriminate. }
+  assert (Hc0 : noconst ivs).
+  { intros q K. specialize (Htypes q). rewrite K in Htypes. discriminate. }
+  pose proof (loop_own _ _ _ _ _ _ _ _ El Hne H0) as Hown.
+  pose proof (loop_nonempty _ _ _ _ _ _ _ _ El Hne H0 Hn0) as Hn1.
+  pose proof (loop_noconst _ _ _ _ _ _ _ _ El (oi_bounds _ _ H0) Hc0) as Hc1.
+  destruct (loop_inv _ _ _ _ _ _ _ _ El (oi_bounds _ _ H0)) as (Hev & _).
+  pose proof (noext_evolves _ _ _ Hev Hne) as Hne1.
+  (* the dependency invariant through the loop *)
+  assert (Hcl0 : forall p, iv_cls (geti ivs p) = iv_cls (geti ivs0 p)).
+  { intro p. unfold geti. rewrite <- (map_nth iv_cls ivs divar p), <- (map_nth iv_cls ivs0 divar p), T2. reflexivity. }
+  assert (Hu0 : Forall uinv es0).
+  { eapply Forall_impl; [|exact B2]. intros e (_ & _ & _ & _ & U & _) _. exact U. }
+  assert (Hb0 : Forall (vbounded (length ivs)) es0).
+  { eapply Forall_impl; [|exact B2]. intros e (_ & V & _). unfold vbounded. rewrite Hlen. exact V. }
+  assert (Hd0 : Forall2 (dep_inv s ivs) es0 es0).
+  { assert (G : forall l, Forall (fun e => exists cq, built_ok s ivs0 cq e) l -> Forall (eq_ok s (length ivs0)) l -> Forall2 (dep_inv s ivs) l l).
+    { induction l as [|e l IH]; intros F1 F2; constructor; inversion F1; inversion F2; subst; [|apply IH; assumption].
+      destruct H2 as (cq & _ & Dn & Nd & _). destruct H6 as (_ & _ & _ & _ & U & Ty).
+      constructor.
+      - exact Nd.
+      - apply incl_refl.
+      - rewrite Dn. constructor.
+      - intros p Hp. left. exact Hp.
+      - rewrite Dn. intros d [].
+      - intro K. contradiction.
+      - intro K. contradiction.
+      - reflexivity. }
+    apply G; [|exact B2].
+    clear - Hbuilt. induction Hbuilt; constructor; [exists x; assumption|assumption]. }
+  pose proof (loop_dep _ _ _ _ es0 _ _ _ _ El Hfx Hok (oi_bounds _ _ H0) Hu0 Hb0 Hd0) as Hd1.
+  cbn [cs_ivs] in *.
+  assert (Hti0 : exists rv T, topo_inv s ivs es0 rv T).
+  { exists (fun _ => 0), 0.
+    assert (Hun : forall e, In e es0 -> ie_type e = EUnknown /\ ie_deps e = []).
+    { intros e He. rewrite Forall_forall in B2. destruct (B2 e He) as (_ & _ & _ & _ & _ & Ty). split; [exact Ty|].
+      destruct (Forall2_In_r _ _ _ _ Hbuilt He) as (cq & _ & _ & Dn & _). exact Dn. }
+    constructor.
+    - intros e d u He Hd. rewrite (proj2 (Hun e He)) in Hd. destruct Hd.
+    - intros e u He (K & _). exfalso. apply K. apply (Hun e He).
+    - intros e e' d p u He _ (K & _). exfalso. apply K. apply (Hun e He). }
+  destruct (loop_topo _ _ _ _ _ _ _ _ El Hne H0 Hok Hti0) as (rv & T & [_ _ Hrank]).
+  cbn [cs_ivs] in Hrank.
+  apply (finish_topo s _ _ _ _ rv); try assumption.
+  - eapply evolves_ivs_ok; eassumption.
+  - intros ivs2 Hev2 e1 e2 He1 (S1 & S2 & S3 & S4 & S5) Hty2.
+    destruct (Forall2_In_r _ _ _ _ Hd1 He1) as (e0 & He0 & [Dn Di Dd Dc Ds Do Dv Did]).
+    destruct (Forall2_In_r _ _ _ _ Hbuilt He0) as ((c, q) & Hcq & Bid & _ & _ & Bb & Br). cbn [fst snd] in *.
+    assert (Hty1 : ie_type e1 <> EUnknown) by (intro K; apply Hty2; apply S5; exact K).
+    assert (Hcl2 : forall p, iv_cls (geti ivs2 p) = iv_cls (geti (cs_ivs st) p)) by (intro p; eapply cls_stable; exact Hev2).
+    assert (HclL : forall p, iv_cls (geti (cs_ivs st) p) = iv_cls (geti ivs0 p)).
+    { intro p. rewrite (cls_stable _ _ _ p Hev). apply Hcl0. }
+    exists (q_id q), c, q. split; [rewrite S1, Did; exact Bid|]. split; [apply find_eqn_unique; assumption|]. split.
+    + intros k Hk. apply Br in Hk. unfold pcls in Hk. apply in_map_iff in Hk. destruct Hk as (p & Pk & Pin).
+      destruct (Dc p Pin) as [Pv|[Pu|Pd]].
+      * left. exists p. split; [rewrite S3; apply Dv; assumption|]. rewrite Hcl2, HclL. exact Pk.
+      * left. exists p. split; [rewrite S3; exact Pu|]. rewrite Hcl2, HclL. exact Pk.
+      * right. rewrite S2. rewrite HclL, Pk in Pd. exact Pd.
+    + intros d Hd. rewrite S2 in Hd. destruct (Ds d Hd) as (p & P1 & P2 & P3). split; [|split].
+      * apply Br. unfold pcls. apply in_map_iff. exists p. split; [|exact P1]. rewrite P3, HclL. reflexivity.
+      * intros u Hu. rewrite S3 in Hu. rewrite Hcl2. apply Do; assumption.
+      * exists p. split; [|rewrite Hcl2; symmetry; exact P3].
+        rewrite Forall_forall in Bb. specialize (Bb p P1). destruct Hev2 as (L2 & _). destruct Hev as (L1 & _). cbn [cs_ivs] in *. lia.
 Qed.
